@@ -273,7 +273,7 @@ func r07_2(c *Ctx, rule string) {
 		c.R.Check(phi != nil && eng.Strip(upd.Value) == ssa.Value(phi), rule, con+"/value", c.pos(upd), "the stored id is the loop counter before its increment", "the id stored in receiver.files is not the pre-increment counter")
 	}
 	// key is p.Stat.Path
-	c.R.Check(isFieldLoad(upd.Key, "types.Stat.Path"), rule, con+"/key", c.pos(upd), "keyed by the stat's path", "receiver.files is not keyed by the stat's path")
+	c.R.Check(isFieldLoad(upd.Key, "types.Stat.Path") || isStoredToField(loop, upd.Key, "types.Stat.Path"), rule, con+"/key", c.pos(upd), "keyed by the stat's path", "receiver.files is not keyed by the stat's path")
 	isUpd := func(in ssa.Instruction) bool { return in == ssa.Instruction(upd) }
 	x := c.explorer(loop)
 	// (a) not requestable (the shared predicate, FileMode.IsRegular or the mask test written out)
@@ -495,4 +495,17 @@ func r07_5(c *Ctx, rule string) {
 	for _, n := range need {
 		c.R.Check(ret.Funcs[n], rule, base+"/write-targets/"+n, "-", "reached by the payload through the VTA call graph", "the no-retain analysis did not reach "+n+": the call graph no longer resolves the pipe's writer chain")
 	}
+}
+
+// isStoredToField: v is the very value this function stores into field owner
+// (`p.Stat.Path = path` ... `files[path] = id`): the field holds it, reading it
+// back or using the local is the same.
+func isStoredToField(fn *ssa.Function, v ssa.Value, owner string) bool {
+	sv := eng.Strip(v)
+	for _, st := range fieldStoresIn(fn, owner) {
+		if st.Parent() == fn && eng.Strip(st.Val) == sv {
+			return true
+		}
+	}
+	return false
 }
